@@ -200,7 +200,8 @@ Section Exec.
   | PSetItem (sd : side) (o : N) (i : nat) (v : N)
   | PReplace (sd : side) (o : N) (vs : list N)
   | PSet (sd : side) (o v : N)
-  | PDel (sd : side) (o : N).
+  | PDel (sd : side) (o : N)
+  | PDelColl (sd : side) (o : N).          (* del obj.collection *)
 
   Fixpoint insert_at (i : nat) (v : N) (l : list N) : list N :=
     match i, l with
@@ -240,6 +241,13 @@ Section Exec.
   Fixpoint dedup (l : list N) : list N :=
     match l with [] => [] | y :: t => if memb y t then dedup t else y :: dedup t end.
   Definition dedup_first (l : list N) : list N := rev (dedup (rev l)).
+
+  (* CollectionAdapter.clear_with_event: the remover is called for every member of a snapshot *)
+  Fixpoint clear_with_event (sd : side) (o : N) (snapshot : list N) (s : st) : res :=
+    match snapshot with
+    | [] => Ok s
+    | v :: rest => bind (run_call (KCollRemove sd o v None) s) (clear_with_event sd o rest)
+    end.
 
   Definition step_prim (p : prim) (s : st) : res :=
     match p with
@@ -285,5 +293,11 @@ Section Exec.
           | CAbsent, _ => if persistent s then Ok s2 else Err AttributeError s2
           | _, _ => Ok s2
           end)
+    | PDelColl sd o =>
+        (* _CollectionAttributeImpl.delete: no-op when the key is not in the dict *)
+        match cells s sd o with
+        | CList l => bind (clear_with_event sd o l s) (fun s1 => Ok (set_cell s1 sd o CAbsent))
+        | _ => Ok s
+        end
     end.
 End Exec.
